@@ -188,7 +188,9 @@ func (c *Ctx) globalWrites(g *ssa.Global, funcs []*ssa.Function) (writes []globa
 			case *ssa.UnOp:
 				if x.Op == token.MUL && x.X == g {
 					reads++
-					c.derivedWrites(f, x, &writes, &unknown, map[ssa.Value]bool{})
+					if isRefType(x.Type()) || isArrayOrStruct(x.Type()) {
+						c.derivedWrites(f, x, &writes, &unknown, map[ssa.Value]bool{})
+					}
 				}
 			}
 		})
@@ -738,4 +740,12 @@ func isConstMake(sl *ssa.Slice) int64 {
 		}
 	}
 	return arr.Len()
+}
+
+func isArrayOrStruct(t types.Type) bool {
+	switch t.Underlying().(type) {
+	case *types.Array, *types.Struct:
+		return true
+	}
+	return false
 }
